@@ -100,6 +100,23 @@ func argPairs(a map[string]int) [][]any {
 	return out
 }
 
+// RunWatched is Run under a watchdog: a scenario that does not come back (a
+// subscription call or a mutation blocked for good) is reported as one "hung"
+// event instead of hanging the driver.
+func RunWatched(sc Scenario, limit time.Duration) []any {
+	ch := make(chan []any, 1)
+	go func() { ch <- Run(sc) }()
+	select {
+	case l := <-ch:
+		return l
+	case <-time.After(limit):
+		return []any{
+			map[string]any{"ev": "sinit", "states": sc.States, "multi": sc.Multi},
+			map[string]any{"ev": "hung", "after_s": int(limit.Seconds())},
+		}
+	}
+}
+
 // Run executes the scenario and returns the event lines.
 func Run(sc Scenario) (lines []any) {
 	schema := am.Schema{}
